@@ -2,7 +2,8 @@
 From Coq Require Import List NArith ZArith Lia.
 From YV Require Import Base.Wire Model.CodedCpp Model.Binary.
 From YV Require Import Proofs.BinaryProofs Proofs.ProtocolProofs Proofs.CodedCppOut Proofs.CodedCppIn Proofs.Truncation.
-From YV Require Import Model.CodedPy Proofs.CodedPyIn Proofs.CodedPyOut Proofs.CodedPyRoundtrip.
+From YV Require Import Proofs.CodedCppRoundtrip.
+From YV Require Import Model.CodedPy Proofs.CodedPyIn Proofs.CodedPyOut Proofs.CodedPyRoundtrip Model.PyTyped Proofs.PyTypedProofs.
 Import ListNotations.
 
 (* every type constructor, every well-typed value, any following bytes *)
@@ -30,6 +31,14 @@ Theorem C01_cpp_reader_complete : forall bufsize ops data vs, (0 < bufsize)%nat 
   rrun bufsize (cin_init data) (ops ++ [RVerify]) = map Ok vs ++ [Ok VUnit].
 Proof. exact cpp_complete. Qed.
 Print Assumptions C01_cpp_reader_complete.
+
+(* C++ coded streams end to end: written with any buffer size >= 10, read back with any buffer size > 0, VerifyFinished succeeds *)
+Theorem C01_cpp_stream_roundtrip : forall b1 b2 ops, (10 <= b1)%nat -> (0 < b2)%nat ->
+  Forall (wop_ok b1) ops -> Forall wop_rt ops ->
+  exists chunks, wfinish b1 ops = Ok chunks /\
+                 rrun b2 (cin_init (concat chunks)) (creads_of ops ++ [RVerify]) = map Ok (cvalues_of ops) ++ [Ok VUnit].
+Proof. exact cpp_stream_roundtrip. Qed.
+Print Assumptions C01_cpp_stream_roundtrip.
 
 (* the buffered Python writer (_binary.py CodedOutputStream) hands the underlying stream exactly the bytes its operations
    denote, for every buffer size >= 10, and the operations generated code uses never raise *)
@@ -61,6 +70,32 @@ Proof.
   split; [|vm_compute; reflexivity].
   repeat (apply Forall_cons; [cbn; try exact I; try split; try lia; try reflexivity|]). apply Forall_nil.
 Qed.
+
+(* The typed layer of the generated Python writers as a program over the coded stream (Model.PyTyped.py_wops: the calls the
+   serializer classes of _binary.py make, compared call by call with a spying stream on every run): the bytes those calls
+   denote are the Python encoding of the value ... *)
+Theorem C01_py_typed_calls_denote_encoding : forall t v, has_type t v = true ->
+  concat (map pwbytes (py_wops t v)) = enc_py t v.
+Proof. exact py_wops_bytes. Qed.
+Print Assumptions C01_py_typed_calls_denote_encoding.
+
+(* ... so, through the buffered writer and for ANY buffer size, what reaches the underlying stream is that encoding *)
+Theorem C01_py_typed_writer_bytes : forall bufsize t v chunks, has_type t v = true ->
+  pwfinish bufsize (py_wops t v) = PWOk chunks -> concat chunks = enc_py t v.
+Proof. exact py_typed_writer_bytes. Qed.
+Print Assumptions C01_py_typed_writer_bytes.
+
+(* no serializer stores a byte it has not reserved room for *)
+Theorem C01_py_typed_guarded : forall t v, forallb guarded (py_wops t v) = true.
+Proof. exact py_wops_guarded. Qed.
+Print Assumptions C01_py_typed_guarded.
+
+(* a stream step written in any grouping of lists and iterables: the blocks of the groups, then the end marker *)
+Theorem C01_py_stream_step_bytes : forall t bs,
+  forallb (fun b => match b with BList xs | BIter xs => forallb (has_type t) xs end) bs = true ->
+  concat (map pwbytes (py_stream_ops t bs)) = concat (map (py_block t) (filter nonempty (blocks_of bs))) ++ [0%N].
+Proof. exact py_stream_bytes. Qed.
+Print Assumptions C01_py_stream_step_bytes.
 
 (* conformance with docs/reference/binary.md: identical except for 8-bit integers ... *)
 Theorem C01_doc_conformance_guarded : forall t, no_int8 t = true -> forall v, enc_doc t v = enc t v.
